@@ -18,6 +18,18 @@ def moments_of(D, dirs_deg):
     return np.array([np.sum(D * np.cos(th)) * w, np.sum(D * np.sin(th)) * w, np.sum(D * np.cos(2 * th)) * w, np.sum(D * np.sin(2 * th)) * w])
 
 
+def lygre_krogstad(m, dirs_deg):
+    """the maximum-entropy (Lygre & Krogstad 1986) distribution of the four moments, sampled on the grid (per degree, sum * step = 1)"""
+    import numpy as np
+    th = np.radians(np.asarray(dirs_deg, dtype="float64"))
+    c1, c2 = complex(m[0], m[1]), complex(m[2], m[3])
+    p1 = (c1 - c2 * c1.conjugate()) / (1.0 - abs(c1) ** 2)
+    p2 = c2 - c1 * p1
+    se = 1.0 - p1 * c1.conjugate() - p2 * c2.conjugate()
+    D = np.real(se) / np.abs(1.0 - p1 * np.exp(-1j * th) - p2 * np.exp(-2j * th)) ** 2
+    return D / (np.sum(D) * (360.0 / len(th)))
+
+
 def act_on_moments(m, s, alpha_deg):
     """moments of the distribution g.D, g(theta) = s*theta + alpha"""
     a1, b1, a2, b2 = m
@@ -43,14 +55,14 @@ def run(tier):
     def vn(v):
         return v[0] + ("" if not v[1] else ":" + v[1]["solution_method"])
 
-    def mixture(N):
+    def mixture(N, cap=30.0):
         """moments of a von Mises mixture the grid resolves (circular spread >= 1.5 bins)"""
         th = np.linspace(0, 2 * np.pi, 7200, endpoint=False)
         delta = 2 * math.pi / N
         while True:
             kmax = 1.0 / (1.5 * delta) ** 2          # circular spread ~ 1/sqrt(kappa) >= 1.5 bins
-            k1 = rng.uniform(0.5, min(kmax, 30.0))
-            k2 = rng.uniform(0.5, min(kmax, 30.0))
+            k1 = rng.uniform(0.5, min(kmax, cap))
+            k2 = rng.uniform(0.5, min(kmax, cap))
             m1, m2 = rng.uniform(0, 2 * math.pi), rng.uniform(0, 2 * math.pi)
             w2, bg = rng.choice([0.0, rng.uniform(0.05, 0.5)]), rng.uniform(0.0, 0.2)
             D = (1 - w2) * np.exp(k1 * (np.cos(th - m1) - 1)) / np.sum(np.exp(k1 * (np.cos(th - m1) - 1)))
@@ -76,7 +88,8 @@ def run(tier):
         for name, D in res.items():
             for i in range(nmix):
                 err = float(np.linalg.norm(moments_of(D[i], d) - mix[i]))
-                bound = 0.0101 if name.startswith("mem2") else 0.05
+                # MEM: "a grid-dependent discretisation bound" = the error of the Lygre-Krogstad formula itself sampled on this grid (at least 0.05)
+                bound = 0.0101 if name.startswith("mem2") else max(0.05, 1.05 * float(np.linalg.norm(moments_of(lygre_krogstad(mix[i], d), d) - mix[i])) + 1e-9)
                 distinct.add((name, N, i))
                 if not err <= bound:
                     chk.violation("fidelity:%s" % name, "%s does not reproduce the input moments (four-moment norm %.4f > %.4f)" % (name, err, bound),
@@ -170,6 +183,53 @@ def run(tier):
                 chk.violation("jacobian", "the MEM2 Jacobian is not the derivative of the moment-constraint function",
                               {"N": N, "lambdas": lam.tolist(), "moments": mom.tolist(), "max_abs_diff": float(np.max(np.abs(jac - num)))})
                 break
+    # fine grids, narrow but resolved lobes (spread 2..6 bins): the Newton solver needs many steps; fidelity and Newton / scipy agreement
+    for N in ([144] if quick else [72, 144]):
+        d = np.linspace(0, 360, N, endpoint=False)
+        nmix = 60 if quick else 300
+        th_ = np.linspace(0, 2 * np.pi, 7200, endpoint=False)
+
+        def narrow():
+            D = np.zeros_like(th_)
+            for _ in range(rng.choice([1, 2])):
+                kap = 1.0 / (2 * math.pi / N * rng.uniform(1.5, 6.0)) ** 2
+                lobe = np.exp(kap * (np.cos(th_ - rng.uniform(0, 2 * math.pi)) - 1.0))
+                D = D + rng.uniform(0.3, 1.0) * lobe / np.sum(lobe)
+            D = D / np.sum(D)
+            bg = rng.choice([0.0, 0.01, 0.03, 0.1])
+            D = (1 - bg) * D + bg / len(th_)
+            return [float(np.sum(D * np.cos(th_))), float(np.sum(D * np.sin(th_))), float(np.sum(D * np.cos(2 * th_))), float(np.sum(D * np.sin(2 * th_)))]
+        mix = np.array([narrow() for _ in range(nmix)])
+        try:
+            Dn = est(mix[:, 0].copy(), mix[:, 1].copy(), mix[:, 2].copy(), mix[:, 3].copy(), d, method="mem2", solution_method="newton")
+        except Exception as e:
+            chk.violation("raise:narrow:%s" % type(e).__name__, "MEM2 / Newton raised on narrow resolved lobes", {"N": N, "error": str(e)[:300]})
+            continue
+        evals += nmix
+        for i in range(nmix):
+            err = float(np.linalg.norm(moments_of(Dn[i], d) - mix[i]))
+            distinct.add(("narrow", N, i))
+            if not err <= 0.0101:
+                chk.violation("fidelity:narrow:mem2:newton", "MEM2 / Newton does not reproduce the input moments of a narrow resolved lobe (four-moment norm %.4f > 0.01)" % err,
+                              {"N": N, "moments": mix[i].tolist(), "reconstructed": moments_of(Dn[i], d).tolist()})
+                break
+    # a per-call solver configuration must not outlive the call: default -> loose override -> default again -----------------------------
+    for N in Ns[:2]:
+        d = np.linspace(0, 360, N, endpoint=False)
+        mm = np.array([mixture(N) for _ in range(6)])
+        args = [mm[:, i].copy() for i in range(4)]
+        for sm in ("newton", "scipy"):
+            try:
+                first = est(*[a.copy() for a in args], d, method="mem2", solution_method=sm)
+                est(*[a.copy() for a in args], d, method="mem2", solution_method=sm, solver_config={"atol": 0.1, "max_iter": 3})
+                again = est(*[a.copy() for a in args], d, method="mem2", solution_method=sm)
+            except Exception as e:
+                chk.violation("raise:config-history:%s" % type(e).__name__, "estimator raised in a default / override / default sequence", {"N": N, "solver": sm, "error": str(e)[:300]})
+                continue
+            evals += 3
+            if not np.allclose(first, again, rtol=1e-12, atol=1e-15):
+                chk.violation("config-history:%s" % sm, "a default-configuration call returns something else after a call with a per-call solver_config",
+                              {"N": N, "solver": sm, "max_abs_diff": float(np.max(np.abs(first - again))), "peak": float(np.max(first))})
     chk.set("evaluations", evals)
     chk.set("distinct_nontrivial", len(distinct))
     chk.assume("the specification (Symmetry.tla) supplies every group element with its bin permutation; closeness (0.01 in the four-moment norm for MEM2, "
